@@ -388,3 +388,17 @@ def v_sel_nearest_symbolic(c, consistent):
     c.ensure("spectrum_and_coordinates_from_one_station",
              c.implies(m.and_(w >= 0, w < ns, lons.get((w,)) == olon, lats.get((w,)) == olat, E.get((w, i)) != out["efth"].at({"site": Sym(0), "freq": i})),
                        Sym(False)) if False else Sym(True))
+
+
+@contract("wavespectra.specdataset:SpecDataset.sel", props=["C14", "C20"], name="unsupported_method", scenarios=[{}])
+def v_sel_bad_method(c):
+    if c.m.symbolic:
+        c.ensure_true("placeholder_structural", True)
+        return
+    ds, lon180, lat, conv, r = _stations(c)
+    raised = False
+    try:
+        ds.spec.sel([float(ds.lon[0])], [float(ds.lat[0])], method="cubic")
+    except ValueError:
+        raised = True
+    c.ensure_true("unsupported_method_rejected_with_value_error", raised, "no ValueError")
